@@ -85,9 +85,16 @@ class Creators:
         self._records[gfa_line.record_type] = {}
       self._records[gfa_line.record_type][id(gfa_line)] = gfa_line
 
+  @staticmethod
+  def __record_type_of_string(gfa_line):
+    """Record type of a line string: the first field ("#" for comments)"""
+    if gfa_line[0] == "#":
+      return "#"
+    return gfa_line.split(gfapy.Line.SEPARATOR)[0]
+
   def __add_line_unknown_version(self, gfa_line):
     if isinstance(gfa_line, str):
-      rt = gfa_line[0]
+      rt = Creators.__record_type_of_string(gfa_line)
     elif isinstance(gfa_line, gfapy.Line):
       rt = gfa_line.record_type
     else:
@@ -145,7 +152,7 @@ class Creators:
 
   def __add_line_GFA1(self, gfa_line):
     if isinstance(gfa_line, str):
-      if gfa_line[0] == "S":
+      if Creators.__record_type_of_string(gfa_line) == "S":
         gfa_line = gfapy.Line(gfa_line, vlevel=self._vlevel,
             dialect=self._dialect)
       else:
@@ -179,7 +186,7 @@ class Creators:
 
   def __add_line_GFA2(self, gfa_line):
     if isinstance(gfa_line, str):
-      if gfa_line[0] == "S":
+      if Creators.__record_type_of_string(gfa_line) == "S":
         gfa_line = gfapy.Line(gfa_line, vlevel=self._vlevel,
             dialect=self._dialect)
       else:
